@@ -1298,9 +1298,11 @@ class Emitter:
             a = [self.value(x) for x in argv if x is not None]
             if base.startswith("llvm.memcpy.") or base.startswith("llvm.memmove.") or base.startswith("llvm.memcpy.inline"):
                 fn = "vf_memmove" if "memmove" in base else "vf_memcpy"
+                if not re.search(r"\d+ull\)+$", a[2]): fn += "_v"        # size is not a literal: see vf_rt.h
                 out += ["  %s((void*)%s, (const void*)%s, (uint64_t)%s);" % (fn, a[0], a[1], a[2])]
             elif base.startswith("llvm.memset."):
-                out += ["  vf_memset((void*)%s, %s, (uint64_t)%s);" % (a[0], a[1], a[2])]
+                fn = "vf_memset" if re.search(r"\d+ull\)+$", a[2]) else "vf_memset_v"
+                out += ["  %s((void*)%s, %s, (uint64_t)%s);" % (fn, a[0], a[1], a[2])]
             elif base.startswith("llvm.stacksave"):
                 decl(I.res, rty); out += ["  %s = 0;" % self.lname(I.res)]
             elif re.match(r'llvm\.(u|s)(add|sub|mul)\.with\.overflow\.i(\d+)', base):
